@@ -14,10 +14,11 @@ META = {
                  "recorded run (stdout lines, re-read -o file, exit code) validated by TLC against ConvertTrace.tla",
     "design_ref": "DESIGN.md section 6, C14",
     "level_text": "Exhaustive on the model (all streams of <=2 messages x product option space). On the binary: the option space "
-                  "(6 window classes x 5 lifecycle classes x 9 --eac sets x 9 -f files in both formats, ids of 1..4 characters, x sort "
-                  "x 4 styles x -o) "
-                  "is covered pairwise-complete per input set plus every option alone (quick), and as the full product on one "
-                  "input set (thorough); input sets: 1-3 files, same/different ECUs, reboots, garbage, messages without "
+                  "(6 window classes x 9 lifecycle-list classes incl. descending / mixed order / duplicate / unknown ids x 11 --eac sets "
+                  "incl. shadowing and ECU-qualified entries x 9 -f files in both formats, ids of 1..4 characters, x 3 orders of the "
+                  "entries of the multi-valued options x sort x 4 styles x -o = 256 608 combinations) "
+                  "is covered pairwise-complete per input set plus every option alone (quick), and as a seeded sample of 30 000 "
+                  "combinations on one input set (thorough); input sets: 1-3 files, same/different ECUs, reboots, garbage, messages without "
                   "extended header, timestamps not monotone in reception order (so --sort permutes, also across -e), tied "
                   "first reception times; every run uses a rotated permutation of the file arguments and is judged against the "
                   "reference stream obtained with the identity order.",
@@ -35,8 +36,9 @@ META = {
                   "Trusted: TLC, the text projection of stdout lines (index, timestamp column as message key, ids), hash31.",
 }
 
-PARAMS = ["winc", "lcsc", "eac", "f", "sort", "style", "ofile"]
-DEFAULT = {"winc": "none", "lcsc": "none", "eac": [], "f": {"fmt": "none", "ff": []}, "sort": False, "style": "a", "ofile": False}
+PARAMS = ["winc", "lcsc", "eac", "f", "ord", "sort", "style", "ofile"]
+DEFAULT = {"winc": "none", "lcsc": "none", "eac": [], "f": {"fmt": "none", "ff": []}, "ord": "asc", "sort": False, "style": "a",
+           "ofile": False}
 
 
 def vkey(v):
@@ -48,49 +50,64 @@ def pairs_of(o):
     return {(ks[i], ks[j]) for i in range(len(ks)) for j in range(i + 1, len(ks))}
 
 
-def pairwise(space, rnd):
-    """greedy pairwise-complete covering array over the TLC-enumerated option space (a sampling decision, not a verdict)"""
+def space_size(dims):
+    n = 1
+    for p in PARAMS:
+        n *= len(dims[p])
+    return n
+
+
+def random_combo(dims, rnd):
+    return {p: rnd.choice(dims[p]) for p in PARAMS}
+
+
+def pairwise(dims, rnd):
+    """greedy pairwise-complete covering array over the product of the TLC-emitted dimensions (a sampling decision, not a verdict)"""
     allpairs = set()
-    vals = {p: sorted({vkey(o[p]) for o in space}) for p in PARAMS}
     for i in range(len(PARAMS)):
         for j in range(i + 1, len(PARAMS)):
-            for a in vals[PARAMS[i]]:
-                for b in vals[PARAMS[j]]:
-                    allpairs.add(((PARAMS[i], a), (PARAMS[j], b)))
+            for a in dims[PARAMS[i]]:
+                for b in dims[PARAMS[j]]:
+                    allpairs.add(((PARAMS[i], vkey(a)), (PARAMS[j], vkey(b))))
     uncovered = set(allpairs)
     rows = []
     while uncovered:
         best, gain = None, -1
-        for o in rnd.sample(space, min(400, len(space))):
+        for _ in range(300):
+            o = random_combo(dims, rnd)
             g = len(pairs_of(o) & uncovered)
             if g > gain:
                 best, gain = o, g
-        if gain <= 0:       # rare: sample missed every uncovered pair -> pick one that covers a specific pair
-            tgt = next(iter(uncovered))
-            best = next(o for o in space if tgt in pairs_of(o))
+        if gain <= 0:       # rare: the sample missed every uncovered pair -> build a combination around one of them
+            (p1, v1), (p2, v2) = next(iter(uncovered))
+            best = random_combo(dims, rnd)
+            best[p1], best[p2] = json.loads(v1), json.loads(v2)
         rows.append(best)
         uncovered -= pairs_of(best)
     return rows, len(allpairs)
 
 
-def singles(space):
+def singles(dims):
     """every option value alone (all other options at their default), on screen and into a file"""
-    byk = {vkey({p: o[p] for p in PARAMS}): o for o in space}
-    out = []
+    res, seen = [], set()
     for p in PARAMS:
-        for v in sorted({vkey(o[p]) for o in space}):
+        for v in dims[p]:
             for extra in ({}, {"ofile": True, "style": "none"}):
                 o = dict(DEFAULT)
                 o.update(extra)
-                o[p] = json.loads(v)
-                k = vkey({q: o[q] for q in PARAMS})
-                if k in byk:
-                    out.append(byk[k])
-    seen, res = set(), []
-    for o in out:
-        k = vkey(o)
-        if k not in seen:
-            seen.add(k)
+                o[p] = v
+                if vkey(o) not in seen:
+                    seen.add(vkey(o))
+                    res.append(o)
+    return res
+
+
+def sample_space(dims, n, rnd):
+    res, seen = [], set()
+    while len(res) < n:
+        o = random_combo(dims, rnd)
+        if vkey(o) not in seen:
+            seen.add(vkey(o))
             res.append(o)
     return res
 
@@ -204,23 +221,30 @@ def check(ctx):
     c.tlc_must_pass(ctx, "convert", "mc/MCConvert.tla", "Convert_quick.cfg" if quick else "Convert_thorough.cfg", timeout=3000,
                     workers=wk)
     # (b) TLC enumerates the abstract option space and the input-set shapes
-    space = c.scn_lines(c.tlc_must_pass(ctx, "opts", "ConvertOpts.tla", "ConvertOpts_opt.cfg", timeout=600))
+    dims_l = c.scn_lines(c.tlc_must_pass(ctx, "opts", "ConvertOpts.tla", "ConvertOpts_opt.cfg", timeout=600))
     shapes = c.scn_lines(c.tlc_must_pass(ctx, "shapes", "ConvertOpts.tla", "ConvertOpts_shape.cfg", timeout=600))
-    space.sort(key=vkey)
+    if len(dims_l) != 1:
+        raise c.ToolError("expected one line with the dimensions of the option space")
+    dims = {p: sorted(dims_l[0][p], key=vkey) for p in PARAMS}
     shapes.sort(key=vkey)
     nshapes = 4 if quick else 12
-    chosen = pick_shapes(shapes, nshapes, rnd) + pick_tied(shapes, 2 if quick else 8, rnd)
+    # the first set has two ECUs with three boots each: >= 4 lifecycles for the multi-id --lcs selections
+    many = [s for s in shapes if s["tie"] == "none" and s["boots"] == 3 and len(set("".join(s["ecus"]))) == 2 and not s["dup"]]
+    first = rnd.choice(many)
+    chosen = [first] + [s for s in pick_shapes(shapes, nshapes, rnd) if s != first][:nshapes - 1] + pick_tied(shapes, 2 if quick else 8, rnd)
     plan = []
     npairs = 0
     for k, sh in enumerate(chosen):
-        rows, npairs = pairwise(space, rnd)
+        rows, npairs = pairwise(dims, rnd)
+        if sh["tie"] != "none":
+            rows = rows[::2]        # the tied sets are about the input side: half of the array
         if k == 0:
-            rows = singles(space) + rows
+            rows = singles(dims) + rows
         plan.append({"set": k + 1, "shape": sh, "opts": rows, "mode": "pairwise"})
     if not quick:
         full_shape = [s for s in shapes if len(s["ecus"]) == 3 and s["garbage"] and s["noext"] and s["boots"] == 2
                       and s["tie"] == "none" and not s["dup"]][rnd.randrange(3)]
-        plan.append({"set": len(plan) + 1, "shape": full_shape, "opts": space, "mode": "full"})
+        plan.append({"set": len(plan) + 1, "shape": full_shape, "opts": sample_space(dims, 30000, rnd), "mode": "sample of the product"})
     planf = ctx.path("plan.ndjson")
     with open(planf, "w") as f:
         for e in plan:
@@ -244,7 +268,8 @@ def check(ctx):
     counters = {"cases": 0, "ref_cases": 0, "sel_cases": 0, "winc": {}, "lcsc": {}, "ffmt": {}, "neac": {}, "style": {}, "sort": 0,
                 "ofile": 0, "perm_non_identity": 0, "multi_file_cases": 0, "empty_output": 0, "partial_output": 0,
                 "full_output": 0, "lines": 0, "filemsgs": 0, "lifecycles_per_set": {}, "msgs_per_set": {}, "skipped_noref": 0,
-                "jitter_sets": 0, "sorted_output_differs_from_index_order": 0, "sorted_and_e_window_cases": 0,
+                "ord": {}, "lcs_unsorted_list_cases_with_output": 0, "lcs_duplicate_id_cases_with_output": 0,
+                "lcs_unknown_mixed_cases_with_output": 0, "eac_three_expression_cases": 0, "sets_with_4_or_more_lifecycles": 0, "jitter_sets": 0, "sorted_output_differs_from_index_order": 0, "sorted_and_e_window_cases": 0,
                 "sort_permutes_across_e_boundary": 0, "tied_first_rx_same_ecu_set_cases": 0, "tied_first_rx_different_ecu_sets_cases": 0, "dup_file_argument_cases": 0}
     seen_nontrivial = set()
     seen_ref = set()
@@ -272,6 +297,8 @@ def check(ctx):
                     counters["cases"] += 1
                     counters["ref_cases"] += 1
                     counters["lifecycles_per_set"][str(h["set"])] = sum(1 for e in evs if e["ev"] == "lc")
+                    if counters["lifecycles_per_set"][str(h["set"])] >= 4:
+                        counters["sets_with_4_or_more_lifecycles"] += 1
                     if shape_of.get(h["set"], {}).get("jitter"):
                         counters["jitter_sets"] += 1
                     counters["msgs_per_set"][str(h["set"])] = nmsgs
@@ -285,7 +312,7 @@ def check(ctx):
                 counters["cases"] += 1
                 counters["sel_cases"] += 1
                 o = h["opts"]
-                for f in ("winc", "lcsc", "ffmt", "style"):
+                for f in ("winc", "lcsc", "ffmt", "style", "ord"):
                     counters[f][o[f]] = counters[f].get(o[f], 0) + 1
                 counters["neac"][str(len(o["eac"]))] = counters["neac"].get(str(len(o["eac"])), 0) + 1
                 counters["sort"] += 1 if o["sort"] else 0
@@ -323,6 +350,16 @@ def check(ctx):
                                 counters["sort_permutes_across_e_boundary"] += 1
                                 break
                 nout = max(nl, nf)
+                if nout > 0:
+                    lst = o["lcs"]
+                    if any(a > b for a, b in zip(lst, lst[1:])):
+                        counters["lcs_unsorted_list_cases_with_output"] += 1
+                    if len(set(lst)) < len(lst):
+                        counters["lcs_duplicate_id_cases_with_output"] += 1
+                    if o["lcsc"] == "unknownmixed":
+                        counters["lcs_unknown_mixed_cases_with_output"] += 1
+                if len(o["eac"]) >= 3:
+                    counters["eac_three_expression_cases"] += 1
                 if o["style"] != "none" or o["ofile"]:
                     if nout == 0:
                         counters["empty_output"] += 1
@@ -348,7 +385,8 @@ def check(ctx):
                 "arguments) or the reference runs of one input set; non-trivial = the run emitted some but not all messages of "
                 "its input set (a real selection happened); distinct by (input set, options)")
     ctx.exhaustive = True
-    ctx.extra["option_space"] = len(space)
+    ctx.extra["option_space"] = space_size(dims)
+    ctx.extra["option_dimensions"] = {p: len(dims[p]) for p in PARAMS}
     ctx.extra["pairs_covered_per_set"] = npairs
     ctx.extra["input_sets"] = [{"set": e["set"], "shape": e["shape"], "mode": e["mode"], "runs": len(e["opts"])} for e in plan]
     ctx.extra["binary_runs"] = info["runs"]
@@ -356,13 +394,16 @@ def check(ctx):
     ctx.extra["path_hits"] = counters
     # vacuity: every class of every option must have been exercised, and real selections must have happened
     missing = [f + ":" + x for f, dom in (("winc", ["none", "b", "e", "in", "empty", "beyond"]),
-                                          ("lcsc", ["none", "first", "last", "firstlast", "absent"]),
+                                          ("lcsc", ["none", "first", "last", "firstlast", "lastfirst", "perm3", "dup", "unknownmixed", "absent"]),
+                                          ("ord", ["asc", "rev", "dup"]),
                                           ("ffmt", ["none", "dlf", "conv"]), ("style", ["a", "x", "s", "none"]),
-                                          ("neac", ["0", "1", "2"])) for x in dom if counters[f].get(x, 0) == 0]
+                                          ("neac", ["0", "1", "2", "3"])) for x in dom if counters[f].get(x, 0) == 0]
     if ctx.violations:
         return          # a violating run is reported as such; vacuity and self-test only judge clean runs
     if missing or counters["partial_output"] == 0 or counters["perm_non_identity"] == 0 or counters["filemsgs"] == 0 \
             or max(counters["lifecycles_per_set"].values() or [0]) < 2 or counters["tied_first_rx_same_ecu_set_cases"] == 0 \
+            or counters["lcs_unsorted_list_cases_with_output"] == 0 or counters["lcs_duplicate_id_cases_with_output"] == 0 \
+            or counters["lcs_unknown_mixed_cases_with_output"] == 0 or counters["sets_with_4_or_more_lifecycles"] == 0 \
             or counters["sorted_output_differs_from_index_order"] == 0 or counters["sort_permutes_across_e_boundary"] == 0 \
             or counters["jitter_sets"] == 0 or counters["tied_first_rx_different_ecu_sets_cases"] == 0 or counters["dup_file_argument_cases"] == 0:
         raise c.ToolError("vacuous run: missing=%s counters=%s" % (missing, counters))
